@@ -76,6 +76,13 @@ fixed order and `enable` those that the given set has. -/
 def applyConfig (cur given : Slots) : Slots :=
   Enc.all.foldl (fun s e => if isEnabled given e then enable s e else s) cur
 
+/-- How a server's set comes about: `direct` = `Grpc::new(codec).accept_compressed(..)…` (one
+`enable` per call); otherwise the generated-server route: the calls act on the
+`EnabledCompressionEncodings` kept by the generated struct (where `pop` is also available) and
+`apply_compression_config` copies the result into a fresh `Grpc`. -/
+def configure (direct : Bool) (cs : List Call) : Slots :=
+  if direct then runCalls cs else applyConfig Slots.default (runCalls cs)
+
 /-! ### header parsing -/
 
 /-- `HeaderValue::to_str` succeeds. -/
